@@ -7,7 +7,6 @@
 package py
 
 import (
-	"fmt"
 	"math"
 	"math/big"
 	"strconv"
@@ -56,13 +55,21 @@ func (a Float) M__str__() (Object, error) {
 	case math.IsInf(f, -1):
 		return String("-inf"), nil
 	}
-	if i := int64(a); Float(i) == a {
-		if i == 0 && math.Signbit(float64(a)) {
-			return String("-0.0"), nil
+	// The shortest digits that convert back to the same float, laid
+	// out as Python does: exponent form d.ddde+XX below 1e-4 and
+	// from 1e16 on, positional form (with at least one fraction
+	// digit) in between
+	f := float64(a)
+	s := strconv.FormatFloat(f, 'e', -1, 64)
+	if i := strings.IndexByte(s, 'e'); i >= 0 {
+		if exp, err := strconv.Atoi(s[i+1:]); err == nil && exp >= -4 && exp < 16 {
+			s = strconv.FormatFloat(f, 'f', -1, 64)
+			if !strings.Contains(s, ".") {
+				s += ".0"
+			}
 		}
-		return String(fmt.Sprintf("%d.0", i)), nil
 	}
-	return String(fmt.Sprintf("%g", a)), nil
+	return String(s), nil
 }
 
 func (a Float) M__repr__() (Object, error) {
